@@ -372,6 +372,59 @@ def r14_tuple_result_keeps_its_type(ctx):
         raise AnalysisError("decorators.py: tuple result put-back not found")
 
 
+def r15_variadic_bundle_recognised_by_kind(ctx):
+    """In a BoundArguments.arguments mapping the values of a *args (**kwargs) parameter are bundled into one entry.
+    Code that unbundles it (`mapping.popitem()` / `mapping.pop(name)` followed by per-element validation) has to know
+    that the entry *is* the variadic one; the only reliable evidence is the parameter's kind.  A size comparison
+    (`len(arguments) > len(named_arguments)`, `kwargs.keys() != named.keys()`) is false exactly when one star value is
+    passed: check_types on `def body(x, *frames: DataFrame[S])` called `body(0, bad)` neither validates `bad` nor passes
+    it as a positional - the body receives `frames == ((bad,),)`.  Decided: the guard of every unbundling site reads
+    (directly, or through the local / enclosing-scope definitions of the names it uses) `Parameter.kind` / VAR_POSITIONAL /
+    VAR_KEYWORD."""
+    m = ctx.ix.module("pandera/decorators.py")
+
+    def kind_evidence(node, scopes, depth=0):
+        for x in ast.walk(node):
+            if isinstance(x, ast.Attribute) and x.attr in ("kind", "VAR_POSITIONAL", "VAR_KEYWORD"):
+                return True
+        if depth >= 3:
+            return False
+        for nm in {x.id for x in ast.walk(node) if isinstance(x, ast.Name) and isinstance(x.ctx, ast.Load)}:
+            for sc in scopes:
+                for a in walk_no_nested(sc.node):
+                    if isinstance(a, ast.Assign) and any(isinstance(t, ast.Name) and t.id == nm for t in a.targets):
+                        if kind_evidence(a.value, scopes, depth + 1):
+                            return True
+        return False
+
+    n = 0
+    for f in m.all_functions:
+        pops = [c for c in calls_in(f.node) if callee_last(c) in ("popitem", "pop") and isinstance(c.func, ast.Attribute) and isinstance(c.func.value, ast.Name)
+                and c.func.value.id in f.params and any(("arg" in p_) for p_ in [c.func.value.id])]
+        if not pops:
+            continue
+        scopes, g = [f], getattr(f, "parent", None)
+        while g is not None:
+            scopes.append(g)
+            g = getattr(g, "parent", None)
+        cfg = cfg_of(f.node)
+        for c in pops:
+            st = enclosing_stmt(c)
+            node = cfg.node_of(st)
+            guards = cfg.guards(node.id) if node is not None else []
+            by_kind = any(kind_evidence(t, scopes) for t, _ in guards)
+            by_size = [t for t, _ in guards if any(isinstance(x, ast.Call) and callee_last(x) in ("len", "keys") for x in ast.walk(t))]
+            n += 1
+            ctx.touched(f)
+            ok = by_kind
+            ctx.ob("R15", f, f"{f.short}: the variadic bundle `{txt(c)}` is recognised by the parameter's kind", ok,
+                   "guarded by the parameter kind" if ok else
+                   f"`{txt(c)}` is reached under `{txt(by_size[0])[:60] if by_size else 'no kind test'}`: with exactly one star value the sizes are equal, the bundle is "
+                   "treated as an ordinary argument - check_types(def body(x, *frames: DataFrame[S]))(0, bad) runs the body with frames == ((bad,),), `bad` never validated", f.loc(c))
+    if n < 2:
+        raise AnalysisError(f"decorators.py: unbundling of a variadic argument entry found at {n} sites")
+
+
 def run(ctx):
     r9_positional_writeback(ctx)
     r10_accessor_marks_instance_only(ctx)
@@ -379,6 +432,7 @@ def run(ctx):
     r12_pydantic_validate_returns_validated(ctx)
     r13_positionals_not_rebuilt_from_arguments_mapping(ctx)
     r14_tuple_result_keeps_its_type(ctx)
+    r15_variadic_bundle_recognised_by_kind(ctx)
     from ..defassign import check_modules
     check_modules(ctx, "R8", ('pandera/decorators.py',), "escapes the decorated call instead of the SchemaError(s)")
     ix = ctx.ix
@@ -520,9 +574,21 @@ def run(ctx):
     # ---- R3 check_output -------------------------------------------------------
     v = F("check_output.<validate>")
     cfgv = cfg_of(v.node)
+    # the fenced validator (`_try_validate` today) by role: the closure of check_output whose own body calls
+    # `schema.validate(...)`; it may be nested in `validate` or be its sibling
+    tv = None
+    for q, g in funcs.items():
+        if q.startswith(f"{DEC}::check_output.") and g is not v and any(
+                callee_last(c) == "validate" and isinstance(c.func, ast.Attribute) and txt(c.func.value) == "schema" for c in calls_in(g.node)):
+            tv = g
+            break
+    if tv is None:
+        raise AnalysisError("decorators.py: check_output: the closure that calls schema.validate not found")
+    ctx.touched(tv)
+    tv_name = tv.name
     tv_nodes = set()
     for c in calls_in(v.node):
-        if callee_last(c) == "_try_validate":
+        if callee_last(c) == tv_name:
             tv_nodes.add(cfgv.node_of(enclosing_stmt(c)).id)
     rets = [n for n in cfgv.nodes if n.kind == "stmt" and isinstance(n.ast, ast.Return)]
     for r in rets:
@@ -538,10 +604,9 @@ def run(ctx):
         rdv = cfgv.reaching_defs()
         for s in wb:
             defs = rdv[cfgv.node_of(s).id].get(s.value.id, set())
-            ok = ok and all(any(callee_last(c) == "_try_validate" for c in calls_in(cfgv.nodes[d].ast)) for d in defs if cfgv.nodes[d].ast is not None)
+            ok = ok and all(any(callee_last(c) == tv_name for c in calls_in(cfgv.nodes[d].ast)) for d in defs if cfgv.nodes[d].ast is not None)
     ctx.ob("R3", v, "indexed output is replaced by the validated object", ok,
            "out[obj_getter] = <result of _try_validate>" if ok else "validated object is not written back into the output")
-    tv = F("check_output.<validate>.<_try_validate>")
     rets_tv = [s for s in function_stmts(tv) if isinstance(s, ast.Return)]
     ok = bool(rets_tv) and all(isinstance(s.value, ast.Call) and isinstance(s.value.func, ast.Attribute) and s.value.func.attr == "validate"
                                and txt(s.value.func.value) == "schema" for s in rets_tv)
@@ -598,6 +663,18 @@ def run(ctx):
             for k in c.keywords:
                 if k.arg:
                     given[k.arg] = txt(k.value)
+                elif isinstance(k.value, ast.Name):
+                    # **options where options is a local / closure dict literal
+                    dv = _tuple_def(iow, k.value.id)
+                    if isinstance(dv, ast.Dict) and all(isinstance(kk, ast.Constant) for kk in dv.keys):
+                        for kk, vv in zip(dv.keys, dv.values):
+                            given[kk.value] = txt(vv)
+                    elif isinstance(dv, ast.Call) and isinstance(dv.func, ast.Name) and dv.func.id == "dict" and not dv.args:
+                        for kk in dv.keywords:
+                            if kk.arg:
+                                given[kk.arg] = txt(kk.value)
+                    else:
+                        probs.append(f"cannot expand **{k.value.id}")
             bad = [f"{p}<-{given.get(p)}" for p in OPTS if given.get(p) != p]
             ctx.ob("R4", iow, f"check_io -> {target}: options forwarded in parameter order", not bad and not probs,
                    "head, tail, sample, random_state, lazy, inplace reach the same-named parameters" if not bad and not probs
